@@ -121,6 +121,10 @@ def check(tier, seed, replay=None):
             else:
                 parts = [clean_stream(rnd, rnd.choice([0, 1, 2, 4])) for _ in range(rnd.choice([1, 2, 3]))]      # every file a clean stream of its own
                 recipes.append({"kind": "ctx", "onlyObj": only, "srcs": [hexs(p) for p in parts], "files": True, "wrapped": rnd.random() < 0.3})
+        # files that end inside a value, with the per-file ordinal selected: the next file starts at 0 whatever the previous one left open
+        for parts in ([b'{"a":1} [1,', b'2] 3\n', b'4 "x'], [b'1 2 {"k":', b'{"k":2} 5', b'6'], [b'"abc', b'"d" tru', b'true [1]'], [b'[1,[2', b'7\n8\n', b'9']):
+            for policy in ("ignore", "stderr"):
+                recipes.append({"kind": "files", "policy": policy, "mode": "fidx", "onlyObj": False, "parts": [hexs(p_) for p_ in parts], "names": None})
         for i in range(6 if quick else 200):
             parts = [clean_stream(rnd, rnd.choice([1, 2, 3])) for _ in range(5)]
             # files 0..2 live below top/ (one in a sub-directory), 3 and 4 outside; top/ has a link to file 3 and a link to the directory of file 4
